@@ -62,6 +62,8 @@ def run(ctx):
     if rc != 0:
         ctx.oblige("run:driver", False, out[-800:])
 
+    # while the LossyUtf8 findings are still listed as "known" the unchanged tree follows the pre-fix port
+    expect_orig = any(k.get("status") == "known" and str(k.get("id", "")).startswith("C17-lossy") for k in ctx.known)
     evals = 0
     kinds = Counter()
     variants = Counter()
@@ -141,6 +143,9 @@ def run(ctx):
                 distinct.add(hashlib.sha1(spec.encode()).hexdigest())
             continue
         variants[corr] += 1
+        if corr == "orig" and not expect_orig:
+            # the committed LossyUtf8 is the repaired one: matching only the pre-fix port is a regression
+            report_corr(cid, kv, "implementation matches the PRE-FIX LossyUtf8 port (known_findings status fixed), not the committed one", "lossyFixed=LossyUtf8")
         if corr not in ("orig", "fixed", "both"):
             name = {"L": "lossy=LossyUtf8", "R": "render=HtmlRenderer::render", "H": "render=HtmlRenderer::render"}[kind]
             report_corr(cid, kv, "model and implementation disagree (%s): %s" % (name, corr), name)
@@ -155,9 +160,13 @@ def run(ctx):
             if len(parts) >= 2 and any(int(parts[1][i:i + 2], 16) >= 0x80 for i in range(0, len(parts[1]) - 1, 2) if parts[1] != "-"):
                 distinct.add(hashlib.sha1(spec.encode()).hexdigest())
             dist["L:tail-loss" if kv.get("loss") == "true" else "L:no-tail-loss"] += 1
+            if len(parts) >= 2 and len(parts[1]) > 2048:
+                dist["L:longer-than-1KiB"] += 1
         elif kind == "R":
             j = kv.get("judge")
             dist["R:wf=%s:%s" % (kv.get("wf"), "panic" if j == "panic" else "rendered")] += 1
+            if len(spec) > 2100:
+                dist["R:source-longer-than-1KiB"] += 1
             if j != "panic":
                 judge_eval += 1
             if j == "FAIL":
@@ -197,6 +206,8 @@ def run(ctx):
                 dist["H:with-resolved-local-refs"] += 1
             if int(kv.get("ninj", "0") or 0) >= 1:
                 dist["H:with-injections"] += 1
+            if cid.startswith("HL"):
+                dist["H:one-token-longer-than-1KiB"] += 1
             if len(samples) < 4 and evals % 97 == 1:
                 samples.append({"case": cid, "spec": spec[:300], "result": kv})
         if kind != "H" and len(samples) < 8 and evals % 1499 == 1:
@@ -214,7 +225,10 @@ def run(ctx):
         "evaluations": evals, "distinct_nontrivial": len(distinct),
         "rule": "one evaluation = one case run through the REAL code and the Lean driver: L = a byte string through LossyUtf8 and "
                 "String::from_utf8_lossy (all strings of length <=3 over 12 boundary bytes, then random ones); R = a synthetic event stream "
-                "(well-formed, extra End, unclosed Start, gaps/overlaps, out-of-range, empty sources) through HtmlRenderer; H = a generated "
+                "(well-formed, extra End, unclosed Start, gaps/overlaps, out-of-range, empty sources) through HtmlRenderer; long inputs: a 2/3/4-byte "
+                "character swept over offsets around 1/2/3/4/8/64 KiB (+-5 bytes) and a thinned sweep of all residues mod 1024, plus random long "
+                "valid/invalid UTF-8, through LossyUtf8, through HtmlRenderer as ONE Source span (plain, inside highlights, after a short span) and "
+                "through real highlighting of a document with one long comment/string/text token; H = a generated "
                 "document (stmt / tmpl / host, nested + combined injections, locals; clean, CR/CRLF, invalid UTF-8, byte noise, truncated tail) "
                 "through Highlighter::highlight (one highlighter reused for all documents) and HtmlRenderer.  Non-trivial := H with >=2 nested "
                 "highlights or >=1 injection layer; N (multi-layer merge model vs real stream, no locals) with >=2 layers; R well-formed with >=1 highlight; L with >=1 byte >= 0x80.  Distinct by SHA-1 of the case spec.",
